@@ -106,7 +106,7 @@ def replay_lanczos(rep, light=False, traces=None):
                 if nc is None and run['Nmax'] < 2:
                     continue        # the default N_cache = N_max < 2 is refused by the constructor
                 classes = dict(reortho=reo, ncache=cls_nc(nc), exhausted=run['exhausted'], shift=bool(sigma), northo=len(ovs),
-                               wrap=wrap)
+                               wrap=wrap, N1=(run['N'] == 1))
                 opts = dict(N_min=2, N_max=run['Nmax'], reortho=reo, cutoff=1.0e-10, P_tol=0.0)
                 if nc is not None:
                     opts['N_cache'] = nc
@@ -398,8 +398,7 @@ def replay_arnoldi(rep, light=False):
                 if len(psis) != nret:
                     bad('number-of-vectors', got=len(psis), expected=nret)
                     continue
-                # documented: num_ev entries; only min(N, num_ev) Ritz values exist (finding C16-arnoldi-padding: the rest is
-                # padding).  Both lengths are accepted until the padding is removed; then flip to `len(Es) != nret`.
+                # only min(N, num_ev) Ritz values exist (C16-arnoldi-padding, fixed: no padding any more)
                 if len(Es) != nret:
                     bad('number-of-values', got=len(Es))
                     continue
@@ -570,19 +569,19 @@ def account_control_flow(ctx, maxn, res):
 
 # all eigenvalues distinct and reachable: Krylov dimensions 3..8 guaranteed (every branch of the cache machine is recorded)
 LADDER = ('ladder', dict(Kinds={'lanczos', 'evo'}, Flavours={'herm'}, Charges={0}, Sizes={3, 4}, MaxBlocks=2, MaxDim=8,
-                         Perms={'cyc'}, UnitKinds={'gau'}, AVals='<-AValsOne', DMode='ladder'))
+                         Perms={'cyc'}, UnitKinds={'gau'}, AVals='<-AValsOne', DMode='ladder', Sigmas='<-SigmasPM'))
 
 
 def mc_cfgs(tier):
     """small catalogues, exhaustive"""
     if tier == 'quick':
         return [('herm', dict(Kinds={'lanczos', 'evo', 'arnoldi', 'gmres'}, Flavours={'herm'}, Charges={0, 1}, Sizes={1, 2},
-                              MaxBlocks=2, MaxDim=2)),
+                              MaxBlocks=2, MaxDim=2, Sigmas='<-SigmasPM')),       # E_shift absent, > 0, < 0
                 ('gen', dict(Kinds={'evo', 'arnoldi', 'gmres', 'gs'}, Flavours={'gen'}, Charges={0}, Sizes={1, 2},
                              MaxBlocks=1, MaxDim=2, MaxGsRows=2)),
                 LADDER]
     return [('herm', dict(Kinds={'lanczos', 'evo', 'arnoldi', 'gmres'}, Flavours={'herm'}, Charges={0, 1}, Sizes={1, 2},
-                          MaxBlocks=2, MaxDim=2, Perms={'id', 'cyc'}, UnitKinds={'gau', 'alt'})),
+                          MaxBlocks=2, MaxDim=2, Perms={'id', 'cyc'}, UnitKinds={'gau', 'alt'}, Sigmas='<-SigmasPM')),
             ('gen', dict(Kinds={'evo', 'arnoldi', 'gmres', 'gs'}, Flavours={'gen'}, Charges={0, 1}, Sizes={1, 2},
                          MaxBlocks=2, MaxDim=2, MaxGsRows=2)),
             ('herm3', dict(Kinds={'lanczos', 'evo'}, Flavours={'herm'}, Charges={0}, Sizes={3}, MaxBlocks=1, MaxDim=3,
@@ -787,7 +786,7 @@ def check(ctx):
         # no vacuity: every action of the specification was taken in MC, every trace action matched a real event
         need = ['DoBeginBlock', 'DoSetD', 'DoEndOp', 'DoSetA', 'DoOptLanczos', 'DoOptEvo', 'DoOptArnoldi', 'DoOptGmres',
                 'DoOptGsBegin', 'DoOptGsRow', 'DoOptGsEnd', 'DoBuild', 'DoStart', 'BScale', 'BCache', 'BMatvec', 'BAlpha',
-                'BReortho', 'BBeta', 'BBreak', 'BNext', 'RReturn1', 'RMul', 'RCached', 'RClear', 'QCache', 'QMatvec', 'QAlpha',
+                'BReortho', 'BBeta', 'BBreak', 'BNext', 'RUnshift', 'RReturn1', 'RMul', 'RCached', 'RClear', 'QCache', 'QMatvec', 'QAlpha',
                 'QReortho', 'QBeta', 'QScale', 'QAdd', 'RNorm', 'RReturn']
         need += ['Tr' + a for a in need[13:]] + ['TrStart', 'TrAccept']
         never = [a for a in need if ctx.coverage_actions.get(a, (0, 0))[1] == 0]
